@@ -22,6 +22,7 @@ def construct(c):
 
 def main(tier, seed, t0):
     cases = RJ.c13_cases(tier)
+    cases += RJ.mixed_c13(150 if tier == 'quick' else 1500, seed)
     st, r = runner.stage_batch('c13-' + tier, cases)
     ctx = Ctx(PROP)
     ctx.programs = set(c['id'] for c in cases)
